@@ -107,8 +107,12 @@ def check_set(ctx, fx):
     for b in f["blocks"]:
         c = C.term_cond(b)
         c0 = X.strip(c) if c is not None else None
+        neg = False
+        while isinstance(c0, dict) and c0.get("k") == "un" and c0.get("op") == "!":
+            neg = not neg
+            c0 = X.strip(c0["e"])
         if isinstance(c0, dict) and "params.end()" in X.show(c0).replace("this->", "") and ("==" in X.show(c0) or "!=" in X.show(c0)):
-            eq = "==" in X.show(c0)
+            eq = ("==" in X.show(c0)) != neg
             for e in b["succ"]:
                 if e["when"] == ("false" if eq else "true"):
                     found_entry = e["to"]
